@@ -2,15 +2,20 @@
 C06 — model of `tbox::network::BufferedFd` (modules/network/buffered_fd.{h,cpp}) and of the
 `TcpConnection` wrapper (modules/network/tcp_connection.cpp), with patches/C06-01 (`enable()` arms
 the write event when bytes are queued), C06-02 (bytes still buffered are presented before read-zero /
-a read error is reported) and C06-03 (read-zero is reported once, the read event is then off).
-`enableOld`, `onReadOld`, `runOld` are the code as found before these patches.
+a read error is reported), C06-03 (read-zero is reported once, the read event is then off), C06-09
+(`send()` keeps the payload queued on a transient write error and returns false on a lasting one
+instead of dropping it and returning true) and C06-10 (EINTR from `readv` is not a read error).
+`enableOld`, `onReadOld`, `runOld` are the code as found before C06-01..03, `sendOld` before C06-09,
+`firstReadOld` before C06-10.
 
 * `send_buff_` / `recv_buff_` are the FIFO byte queues of C07 (`List Byte`, oldest first):
   `append` = `++`, `hasRead n` = `drop n`, `hasReadAll` = `[]` (C07_refines_fifo).
 * The kernel is an oracle.  Every `write(2)` on the descriptor pops one `WAns`
-  (`accept k` | EAGAIN | error), every `readv(2)` one `RAns` (a chunk of what is pending,
-  "fill to the buffer boundary and drain", EAGAIN, error); an empty answer queue means the
-  natural answer (write: accept `wmax` bytes at most / everything; read: everything pending).
+  (`accept k` | EAGAIN | any other errno), every `readv(2)` one `RAns` (a chunk of what is pending,
+  "fill to the buffer boundary and drain", EAGAIN, EINTR, error).  The code calls `write` at two
+  sites - directly in `send()` and in the write-ready callback; an answer may be addressed to one
+  site (`WEnt.site`), then the other site's writes pass it by: the two sites are scheduled
+  separately.  An empty answer queue (or one with nothing for this site) means the natural answer (write: accept `wmax` bytes at most / everything; read: everything pending).
   The answers are pushed by operations (`kw`, `kr`), so a theorem over all operation lists
   is a theorem over all kernel behaviours.  `pending`/`eof` is the inbound direction (bytes the
   peer wrote and whether it then closed), `wire` what the peer has received.
@@ -34,8 +39,24 @@ deriving DecidableEq, Repr
 inductive WAns where
   | accept (k : Nat)     -- min k n bytes are taken
   | eagain
-  | err                  -- EPIPE
+  | err (code : Nat)     -- -1 with any other errno: EINTR 4, ENOMEM 12, ENOBUFS 105 (transient); EPIPE 32, ECONNRESET 104, EIO 5
 deriving DecidableEq, Repr
+
+/-- the two places where the code calls `write(2)` on the descriptor -/
+inductive Site where
+  | send                 -- buffered_fd.cpp `BufferedFd::send`: the direct write
+  | cb                   -- buffered_fd.cpp `BufferedFd::onWriteCallback`: the write-ready callback
+deriving DecidableEq, Repr
+
+/-- an entry of the kernel's answer queue: for the next `write` of either site, or of one site only -/
+structure WEnt where
+  site : Option Site := none
+  ans : WAns
+deriving DecidableEq, Repr
+
+/-- errno values after which the same `write` may succeed later although nothing changed on the
+connection: EINTR, EAGAIN (= EWOULDBLOCK), ENOMEM, ENOBUFS -/
+def transientErr (code : Nat) : Bool := code == 4 || code == 11 || code == 12 || code == 105
 
 /-- the kernel's answer to one `readv(fd, …)` -/
 inductive RAns where
@@ -43,6 +64,7 @@ inductive RAns where
   | fill                 -- as many bytes as end exactly at / just behind the buffer boundary; the
                          -- rest of this callback's reads are natural (so everything pending is read)
   | eagain
+  | eintr                -- -1 / EINTR: nothing was read, nothing is wrong with the connection
   | err                  -- ECONNRESET
 deriving DecidableEq, Repr
 
@@ -90,7 +112,7 @@ structure S where
   wire : List Byte := []
   pending : List Byte := []
   eof : Bool := false
-  wq : List WAns := []
+  wq : List WEnt := []
   rq : List RAns := []
   wmax : Nat := 0
   -- ghosts
@@ -106,16 +128,27 @@ deriving Repr
 
 /-! ### the kernel oracle -/
 
-/-- next answer to a `write` of `n` bytes -/
-def popW (s : S) (n : Nat) : WAns × List WAns :=
-  match s.wq with
-  | a :: q => (a, q)
-  | [] => (.accept (if s.wmax = 0 then n else min s.wmax n), [])
+/-- the first queued answer that is for this site (or for either), taken out of the queue -/
+def popAt (site : Site) : List WEnt → Option (WAns × List WEnt)
+  | [] => none
+  | e :: q =>
+      if e.site = none ∨ e.site = some site then some (e.ans, q)
+      else
+        match popAt site q with
+        | some (a, q') => some (a, e :: q')
+        | none => none
+
+/-- next answer to a `write` of `n` bytes made at `site` -/
+def popW (s : S) (site : Site) (n : Nat) : WAns × List WEnt :=
+  match popAt site s.wq with
+  | some r => r
+  | none => (.accept (if s.wmax = 0 then n else min s.wmax n), s.wq)
 
 /-- the reads of the `do … while (readv > 0)` loop: returns (bytes read, still pending, answers left) -/
 def readLoop : List Byte → List RAns → List Byte → List Byte × List Byte × List RAns
   | pend, [], acc => (acc ++ pend, [], [])
   | pend, .eagain :: q, acc => (acc, pend, q)
+  | pend, .eintr :: q, acc => (acc, pend, q)
   | pend, .err :: q, acc => (acc, pend, q)          -- a failure after data is ignored by the code
   | pend, .fill :: q, acc => (acc ++ pend, [], q)
   | pend, .chunk k :: q, acc =>
@@ -134,6 +167,7 @@ def emptyRes (eof : Bool) : RRes := if eof then .zero else .again
 def firstRead (pend : List Byte) (eof : Bool) : List RAns → RRes × List Byte × List RAns
   | [] => if pend = [] then (emptyRes eof, pend, []) else (.data pend, [], [])
   | .eagain :: q => (.again, pend, q)
+  | .eintr :: q => (.again, pend, q)          -- patches/C06-10: the level-triggered read event fires again
   | .err :: q => (.error, pend, q)
   | .fill :: q => if pend = [] then (emptyRes eof, pend, q) else (.data pend, [], q)
   | .chunk k :: q =>
@@ -141,6 +175,34 @@ def firstRead (pend : List Byte) (eof : Bool) : List RAns → RRes × List Byte 
       else
         let r := readLoop (pend.drop (k + 1)) q (pend.take (k + 1))
         (.data r.1, r.2.1, r.2.2)
+
+/-- the first `readv` as found: every errno but EAGAIN is a read error, EINTR included -/
+def firstReadOld (pend : List Byte) (eof : Bool) : List RAns → RRes × List Byte × List RAns
+  | .eintr :: q => (.error, pend, q)
+  | l => firstRead pend eof l
+
+/-! ### one `readv` into (writable space of `recv_buff_`, 1 KiB `extbuf`) — buffered_fd.cpp:189-231
+
+`readv` fills `iov[0]` (the `w` writable bytes of the receive buffer) first and `iov[1]` (`extbuf`)
+with what is left.  The code then either marks `rsize` bytes written (`rsize ≤ w`), or marks the
+whole writable space written and appends `rsize - w` bytes of `extbuf`.  Model.lean itself works
+on the FIFO view (`recvQ ++ d`); these definitions spell the two-part landing out so that
+`C06_spill_keeps_order` can say that the FIFO view is right for every `w` and every count. -/
+
+def extbufSize : Nat := 1024
+
+/-- where the `rsize = d.length` bytes of one `readv` land: (in the writable space, in `extbuf`) -/
+def landReadv (w : Nat) (d : List Byte) : List Byte × List Byte := (d.take w, d.drop w)
+
+/-- the receive queue after the code has accounted for one `readv` that returned `d` -/
+def afterReadv (q : List Byte) (w : Nat) (d : List Byte) : List Byte :=
+  let l := landReadv w d
+  if d.length > w then
+    -- hasWritten(writable_size); remain_size = rsize - writable_size; append(extbuf, remain_size)
+    (q ++ l.1) ++ l.2.take (d.length - w)
+  else
+    -- hasWritten(rsize)
+    q ++ l.1.take d.length
 
 /-! ### BufferedFd -/
 
@@ -171,22 +233,44 @@ def disable (s : S) : S × Bool :=
   else if s.st ≠ .running then (s, false)
   else ({ s with st := .inited, readOn := false, writeArmed := false }, true)
 
-/-- `send(data, size)` -/
+/-- `send(data, size)` with patches/C06-09: whatever `write` answers, a `send` that returns true has
+either written the payload or queued it (a transient errno is retried by the write event like EAGAIN);
+after a lasting error nothing is accepted and the caller is told (false) -/
 def send (s : S) (d : List Byte) : S × Bool :=
   if s.hasWr = false then (s, false)
   else
-    let s := { s with sentAll := s.sentAll ++ d }
+    let s1 := { s with sentAll := s.sentAll ++ d }
     if s.st ≠ .running ∨ s.sendQ ≠ [] then
-      ({ s with sendQ := s.sendQ ++ d, kept := s.kept ++ d }, true)
+      ({ s1 with sendQ := s.sendQ ++ d, kept := s.kept ++ d }, true)
     else
-      match popW s d.length with
+      match popW s .send d.length with
       | (.accept k, q) =>
-          ({ s with wq := q, wire := s.wire ++ d.take k, sendQ := d.drop k, kept := s.kept ++ d,
-                    writeArmed := true }, true)
+          ({ s1 with wq := q, wire := s.wire ++ d.take k, sendQ := d.drop k, kept := s.kept ++ d,
+                     writeArmed := true }, true)
       | (.eagain, q) =>
-          ({ s with wq := q, sendQ := d, kept := s.kept ++ d, writeArmed := true }, true)
-      | (.err, q) =>
-          ({ s with wq := q, drops := s.drops + 1, hist := s.hist ++ [.sendDrop d] }, true)
+          ({ s1 with wq := q, sendQ := d, kept := s.kept ++ d, writeArmed := true }, true)
+      | (.err c, q) =>
+          if transientErr c then
+            ({ s1 with wq := q, sendQ := d, kept := s.kept ++ d, writeArmed := true }, true)
+          else ({ s with wq := q }, false)
+
+/-- `send(data, size)` as found: every errno but EAGAIN drops the payload with a log line, and the
+call still returns true -/
+def sendOld (s : S) (d : List Byte) : S × Bool :=
+  if s.hasWr = false then (s, false)
+  else
+    let s1 := { s with sentAll := s.sentAll ++ d }
+    if s.st ≠ .running ∨ s.sendQ ≠ [] then
+      ({ s1 with sendQ := s.sendQ ++ d, kept := s.kept ++ d }, true)
+    else
+      match popW s .send d.length with
+      | (.accept k, q) =>
+          ({ s1 with wq := q, wire := s.wire ++ d.take k, sendQ := d.drop k, kept := s.kept ++ d,
+                     writeArmed := true }, true)
+      | (.eagain, q) =>
+          ({ s1 with wq := q, sendQ := d, kept := s.kept ++ d, writeArmed := true }, true)
+      | (.err _, q) =>
+          ({ s1 with wq := q, drops := s.drops + 1, hist := s.hist ++ [.sendDrop d] }, true)
 
 /-! ### TcpConnection wrapper (forwarding while the buffered descriptor exists) -/
 
@@ -269,7 +353,7 @@ def onRead (s : S) : S :=
 
 /-- `onReadCallback` as found: below-threshold bytes stay unpresented, read-zero repeats -/
 def onReadOld (s : S) : S :=
-  match firstRead s.pending s.eof s.rq with
+  match firstReadOld s.pending s.eof s.rq with
   | (.again, p, q) => { s with pending := p, rq := q }
   | (.zero, p, q) => closeTail false { s with pending := p, rq := q }
   | (.error, p, q) => closeTail true { s with pending := p, rq := q }
@@ -282,10 +366,22 @@ def onWrite (s : S) : S :=
     let s := { s with writeArmed := false }
     fire s s.scb (.sendComplete (s.kept.length - s.wire.length))
   else
-    match popW s s.sendQ.length with
+    match popW s .cb s.sendQ.length with
     | (.accept k, q) => { s with wq := q, wire := s.wire ++ s.sendQ.take k, sendQ := s.sendQ.drop k }
     | (.eagain, q) => let s := { s with wq := q }; fire s s.wecb (.writeError 11)
-    | (.err, q) => let s := { s with wq := q }; fire s s.wecb (.writeError 32)
+    | (.err c, q) => let s := { s with wq := q }; fire s s.wecb (.writeError c)
+
+/-- a variant that is NOT the code (the seeded change C06-5): the error branch of `onWriteCallback`
+switches the write event off, whatever the errno -/
+def onWriteDisarm (s : S) : S :=
+  if s.sendQ = [] then
+    let s := { s with writeArmed := false }
+    fire s s.scb (.sendComplete (s.kept.length - s.wire.length))
+  else
+    match popW s .cb s.sendQ.length with
+    | (.accept k, q) => { s with wq := q, wire := s.wire ++ s.sendQ.take k, sendQ := s.sendQ.drop k }
+    | (.eagain, q) => let s := { s with wq := q, writeArmed := false }; fire s s.wecb (.writeError 11)
+    | (.err c, q) => let s := { s with wq := q, writeArmed := false }; fire s s.wecb (.writeError c)
 
 /-! ### operations -/
 
@@ -305,7 +401,7 @@ inductive Op where
   | disconnect
   | feed (d : List Byte)                  -- the peer writes d
   | peof                                  -- the peer shuts down its sending side
-  | kw (l : List WAns)                    -- the kernel's next answers to write
+  | kw (l : List WEnt)                    -- the kernel's next answers to write (per site or for either)
   | kr (l : List RAns)                    -- the kernel's next answers to readv
   | wmax (k : Nat)                        -- natural writes accept at most k bytes (0 = everything)
   | rd                                    -- a loop pass that reports the descriptor readable
